@@ -507,14 +507,25 @@ func (s *Writer) loadSnapshot(epoch uint64) (*Snapshot, error) {
 		}
 	}
 
+	// on failure, release the segments that were already opened
+	closeLoaded := func() {
+		for _, segSnapshot := range snapshot.segment {
+			if segSnapshot.segment != nil {
+				_ = segSnapshot.segment.Close()
+			}
+		}
+	}
+
 	var running uint64
 	for _, segSnapshot := range snapshot.segment {
 		segPlugin, err := loadSegmentPlugin(s.config.supportedSegmentPlugins, segSnapshot.segmentType, segSnapshot.segmentVersion)
 		if err != nil {
+			closeLoaded()
 			return nil, fmt.Errorf("error loading required segment plugin: %v", err)
 		}
 		segSnapshot.segment, err = s.loadSegment(segSnapshot.id, segPlugin)
 		if err != nil {
+			closeLoaded()
 			return nil, fmt.Errorf("error opening segment %d: %w", segSnapshot.id, err)
 		}
 
